@@ -47,7 +47,8 @@ Definition leg_str (v : legacy) : str :=
   str_of_N (l_major v) ++ c_dot :: str_of_N (l_minor v) ++ c_dot :: str_of_N (l_build v) ++ l_patch v.
 
 Definition is_pre (v : legacy) : bool :=
-  startswith (l_patch v) (list_ascii_of_string "-beta") || startswith (l_patch v) (list_ascii_of_string "-alpha").
+  startswith (l_patch v) (list_ascii_of_string "-beta") || startswith (l_patch v) (list_ascii_of_string "-alpha")
+  || startswith (l_patch v) (list_ascii_of_string "-pre").
 
 (* tuple comparison of the value (major, minor, build, patch) *)
 Definition tuple_cmp (a b : legacy) : comparison :=
